@@ -929,6 +929,25 @@ func (w *w1World) checkCallbacks(cl *w1SimClient, instances []*w1Instance) {
 	if len(cl.cbs) > 0 {
 		s.Probe("nontrivial:C08")
 	}
+	// OnConnect must not run for a connection that is already closed, and no other
+	// callback may run before OnConnect returned
+	var connectDone int64
+	for _, cb := range cl.cbs {
+		if cb.Kind == "connect-done" && connectDone == 0 {
+			connectDone = cb.Seq
+		}
+	}
+	if connects > 0 && cl.isClosed() && cl.closedSeq != 0 && connectSeq > cl.closedSeq {
+		s.Violate("C08", "connect-after-close", "OnConnect ran after the connection was closed", "client %d: transport closed (code %d) before OnConnect ran", cl.idx, cl.closeCode)
+	}
+	for _, cb := range cl.cbs {
+		// callbacks driven by the connection's own timers and commands (server-initiated
+		// unsubscribes/disconnects can reach a hub-registered connection at any time)
+		own := map[string]bool{"alive": true, "subscribe": true, "publish": true, "rpc": true, "history": true, "presence": true, "presence_stats": true, "message": true, "sub_refresh": true, "refresh": true}[cb.Kind]
+		if own && connects > 0 && connectDone != 0 && cb.Seq > connectSeq && cb.Seq < connectDone {
+			s.Violate("C08", "callback-during-connect", "callback ran before OnConnect returned: "+cb.Kind, "client %d: %s callback ran while OnConnect was still running", cl.idx, cb.Kind)
+		}
+	}
 	if connects > 1 {
 		s.Violate("C08", "connect-twice", "OnConnect ran twice", "client %d: OnConnect ran %d times", cl.idx, connects)
 	}
@@ -1362,6 +1381,44 @@ func (w *w1World) checkRecoverReply(cl *w1SimClient, id uint32, req *protocol.Su
 		return
 	}
 	ch := req.Channel
+	if w.sc.Cfg.ConcurrentRecovery {
+		// publishers are active: only the clauses that need no quiescent ground truth
+		if f.Kind != "subscribe" {
+			return
+		}
+		prop := "C02"
+		if chHas(ch, 'c') {
+			prop = "C03"
+		}
+		s.Probe("nontrivial:" + prop)
+		if !f.Recovered && len(f.Pubs) > 0 && prop == "C02" {
+			s.Violate("C02", "pubs-without-recovered", "publications returned with recovered=false", "%s offset=%d epoch=%q: recovered=false but %d publications (publishers active)", ch, req.Offset, req.Epoch, len(f.Pubs))
+		}
+		if f.Recovered && prop == "C02" {
+			next := req.Offset + 1
+			for _, p := range f.Pubs {
+				if p.Offset != next {
+					sig := "recovered=true but the recovered publications are not contiguous from the requested offset"
+					if p.Offset == req.Offset && next == req.Offset+1 {
+						sig = "recovered publications include the requested offset itself (a broadcast still in flight was buffered during the subscribe)"
+					}
+					s.Violate("C02", "recovered-with-missing", sig, "%s requested offset %d: got offset %d where %d was expected (publishers active)", ch, req.Offset, p.Offset, next)
+					break
+				}
+				if t := w.truth(ch, p.Offset, f.Epoch); t != nil && t.Data != p.Data {
+					s.Violate("C02", "recovered-inexact", "recovered publications differ from history", "%s offset %d: got %s, published %s", ch, p.Offset, p.Data, t.Data)
+				}
+				next++
+			}
+			if req.Epoch != "" && f.Epoch != req.Epoch {
+				s.Violate("C02", "recovered-epoch-differs", "recovered=true although the epoch differs", "%s requested epoch %q, reply epoch %q", ch, req.Epoch, f.Epoch)
+			}
+		}
+		if prop == "C03" && len(f.Pubs) > 1 {
+			s.Violate("C03", "more-than-one", "cache recovery delivered more than one publication", "%s: %d publications", ch, len(f.Pubs))
+		}
+		return
+	}
 	hist, err := w.node.History(ch, WithLimit(-1))
 	if err != nil {
 		return
